@@ -201,7 +201,7 @@ sexp sexp_bit_xor (sexp ctx, sexp self, sexp_sint_t n, sexp x, sexp y) {
         len = sexp_bignum_length(tmp);
       } else {
         res = sexp_copy_bignum(ctx, NULL, y, 0);
-        tmp = sexp_twos_complement(ctx, y);
+        tmp = sexp_twos_complement(ctx, x);
         len = sexp_bignum_length(tmp);
       }
       if (sexp_bignum_sign(res) < 0)
